@@ -269,6 +269,10 @@ func (a *Box2) lineIntersect(l *Line2) *Line2 {
 	u := l[0]
 	v := l[1].Sub(l[0])
 
+	// the snapping tolerance is relative for boxes with large coordinates
+	// (an absolute tolerance is less than the float64 spacing out there)
+	tolerance := tolerance * math.Max(1, math.Max(a.Min.Abs().MaxComponent(), a.Max.Abs().MaxComponent()))
+
 	if v.Y == 0 && EqualFloat64(u.Y, a.Max.Y, tolerance) {
 		// no solutions on the top box edge
 		return nil
